@@ -160,10 +160,11 @@ class Gen:
             e = self.elem_access(scope, t, depth - 1)
             if e is not None:
                 return e
-        if self.strings and depth > 0 and self.chance(0.3):
+        if self.strings and depth > 0 and self.chance(0.22):
             e = self.str_op(scope, t, depth - 1)
             if e is not None:
                 self.note("string_op")
+                self.note_str_op(e)
                 self.uses_strings = True
                 return e
         if t == INT:
@@ -283,6 +284,19 @@ class Gen:
         return self.lit(t, depth)
 
     # ---- MiniStar stage 2: strings ------------------------------------------------------------------------
+    def note_str_op(self, e):
+        """Coverage: which string operation an expression's outermost node is."""
+        if e[0] == "index":
+            e = e[1]
+        if e[0] == "meth":
+            self.note("str." + e[2])
+        elif e[0] == "bin":
+            self.note("str.%" if e[1] == "%" else "str." + e[1])
+        elif e[0] == "call" and e[1][0] == "var":
+            self.note("str." + e[1][1] + "()")
+        elif e[0] == "lcomp":
+            self.note("str.elems")
+
     def str_text(self, n):
         return "".join(self.pick(STR_ALPHA) for _ in range(n))
 
@@ -297,13 +311,15 @@ class Gen:
             return ("str", "")
         return self.expr(scope, STR, depth)
 
-    def window_args(self):
-        """Optional start / end arguments of find, count, startswith, ... (None allowed)."""
+    def window_args(self, needle=None):
+        """Optional start / end arguments of find, count, startswith, ... (None allowed).  A needle that may be empty gets
+        at most a start index: with both indices starlark-rust mis-places the empty window in two corner cases (known
+        findings corpus:str-find-start-beyond-empty-string / str-find-negative-window-clamped)."""
         r = self.rng.random()
         ix = lambda: ("int", self.pick([0, 1, 2, 3, -1, -2, -3, 5, 100, -100]))
         if r < 0.5:
             return []
-        if r < 0.75:
+        if r < 0.75 or not (needle is not None and needle[0] == "str" and needle[1] != ""):
             return [ix()]
         if r < 0.85:
             return [("none",), ix()]
@@ -431,9 +447,11 @@ class Gen:
             return ("index", ("meth", S(), self.pick(["partition", "rpartition"]), [self.sep_lit()]), ("int", self.pick([0, 1, 2, -1])))
         if t == INT:
             if k < 0.4:
-                return ("meth", S(), self.pick(["find", "rfind"]), [self.needle(scope, depth)] + self.window_args())
+                nd = self.needle(scope, depth)
+                return ("meth", S(), self.pick(["find", "rfind"]), [nd] + self.window_args(nd))
             if k < 0.6:
-                return ("meth", S(), "count", [self.needle(scope, depth)] + self.window_args())
+                nd = self.needle(scope, depth)
+                return ("meth", S(), "count", [nd] + self.window_args(nd))
             if k < 0.72:
                 # index of a substring that is certainly there
                 p = self.sep_lit()
@@ -448,9 +466,11 @@ class Gen:
                 m = self.pick(["startswith", "endswith"])
                 if self.chance(0.3):
                     aff = ("tuple", [self.needle(scope, 0) for _ in range(self.rng.randint(0, 3))])
+                    safe = ("str", "x") if all(a[0] == "str" and a[1] != "" for a in aff[1]) else None
                 else:
                     aff = self.needle(scope, depth)
-                return ("meth", S(), m, [aff] + self.window_args())
+                    safe = aff
+                return ("meth", S(), m, [aff] + self.window_args(safe))
             if k < 0.8:
                 return ("meth", S(), self.pick(["isdigit", "isalpha", "isalnum", "isspace", "isupper", "islower", "istitle"]), [])
             return ("bin", self.pick(["in", "not in"]), self.needle(scope, depth), S())
